@@ -700,6 +700,9 @@ func (env *Env) evalCall(e *ECall) TV {
 		if x.V.K == VSlice {
 			return TV{V: x.V.Fs[3], T: tInt}
 		}
+		if _, ok := x.T.Underlying().(*types.Chan); ok && x.V.K == VInt {
+			return TV{V: vInt(mkSelect(ex.get(env.st, "CH.cap", SArr(SInt, SInt)), x.V.T)), T: tInt}
+		}
 		efail("cap of %s", x.V)
 	case "card":
 		x := env.eval(e.Args[0])
